@@ -24,10 +24,8 @@ TRANSPARENT = (
     "std::string::ToString>::to_string", "std::string::ToString::to_string",
     "std::sync::Arc::<T, A>::clone",
 )
-UNWRAP_OK = ("std::result::Result::<T, E>::unwrap", "std::result::Result::<T, E>::expect", "std::result::Result::<T, E>::unwrap_or_else",
-             "std::result::Result::<T, E>::unwrap_or", "std::result::Result::<T, E>::unwrap_or_default")
-UNWRAP_SOME = ("std::option::Option::<T>::unwrap", "std::option::Option::<T>::expect", "std::option::Option::<T>::unwrap_or_else",
-               "std::option::Option::<T>::unwrap_or", "std::option::Option::<T>::unwrap_or_default")
+UNWRAP_OK = ("std::result::Result::<T, E>::unwrap", "std::result::Result::<T, E>::expect")
+UNWRAP_SOME = ("std::option::Option::<T>::unwrap", "std::option::Option::<T>::expect")
 TRY_BRANCH = ("std::ops::Try>::branch", "std::ops::Try::branch")
 
 OK_PRESERVING = ("std::result::Result::<T, E>::map_err", "std::result::Result::<T, E>::or_else", "std::result::Result::<T, E>::inspect_err")
@@ -68,7 +66,14 @@ class Origins:
 
     def place(self, body, pl, depth=0, stack=()):
         base = self.local(body, pl[0], depth, stack)
-        return project(base, tuple(pl[1:]))
+        proj = tuple(e for e in pl[1:] if e != "*")
+        if base[0] == "env" and proj and proj[0].startswith("f:") and proj[0][2:].isdigit():
+            # closure / coroutine capture: resolve to the captured operand at the (single) construction site
+            srcs = self.env_sources(base[1], depth)
+            k = int(proj[0][2:])
+            if len(srcs) == 1 and k < len(srcs[0][1]):
+                return project(srcs[0][1][k], proj[1:])
+        return project(base, proj)
 
     def local(self, body, l, depth=0, stack=()):
         key = (body.id, l, depth)
